@@ -84,6 +84,8 @@ def _record_shipped(path: str, tier: str, prop: str, res: Result) -> int:
         inputs.append(d[:4096])
     inputs += list(drivers.nested(rng, n_nest))
     inputs += drivers.KNOWN_TRIGGERS
+    kw_inputs = set(drivers.keyword_orders(rng, 60 if tier == "quick" else 1200))
+    inputs += sorted(kw_inputs)
     from .props_total import pe_grid      # truncated / malformed / embedded PE headers (spans that tempt a decoder past the end of its text)
 
     grid = pe_grid(rng, tier)
@@ -96,7 +98,7 @@ def _record_shipped(path: str, tier: str, prop: str, res: Result) -> int:
     n = 0
     with open(path, "w") as f:
         for i, data in enumerate(inputs):
-            rec = full if i % 4 == 0 else light
+            rec = full if (i % 4 == 0 or data in kw_inputs) else light
             k = 10 if (rng.random() < 0.5 or data in drivers.KNOWN_TRIGGERS) else rng.choice(ks)
             tr = rec.scan(data, k, lo=(prop == "C07"), subs=(prop == "C08"))
             tr["origin"] = "shipped"
